@@ -324,6 +324,27 @@ def r3(ctx, rule):
             ctx.check(f[0] == 'matches', rule.replace('R3', 'R3'), 'group::%s|intermediate' % st, f[1], '%s (intermediate) uses the permissive matches' % st, '%s is intermediate but filters strictly: under-replicated classes are dropped early' % st)
 
 
+def innermost_loop(b, bb):
+    """blocks of the smallest natural loop (back edge t -> h with h dominating t) that contains bb"""
+    best = None
+    for t in range(len(b.blocks)):
+        for h in b.succs(t):
+            if b.dominates(h, t):
+                loop = {h, t}
+                work = [t]
+                while work:
+                    x = work.pop()
+                    if x == h:
+                        continue
+                    for p_ in b.preds(x):
+                        if p_ not in loop:
+                            loop.add(p_)
+                            work.append(p_)
+                if bb in loop and (best is None or len(loop) < len(best)):
+                    best = loop
+    return best or {bb}
+
+
 def r4(ctx):
     rule = 'C06.R4'
     lib = ctx.lib
@@ -347,13 +368,29 @@ def r4(ctx):
     roots_param = [i for i in range(1, b.argc + 1) if b.local_name(i) == 'roots']
     if gets and parents and inserts and roots_param:
         g, pa, ins = gets[0], parents[0], inserts[0]
-        in_cycle = pa.bb in b.reachable(g.bb) and g.bb in b.reachable(pa.bb)
+        in_cycle = pa.bb in innermost_loop(b, g.bb)
         key = backslice(b, [g.args[1]])
         key_ok = key.has_call(r'AsRef::as_ref$') and key.has_call(r'path::Path::parent$')
         filled = backslice(b, ins.args[1:])
         filled_ok = roots_param[0] in filled.locals and filled.has_call(r'Iterator::enumerate$')
         same_map = bool(set(backslice(b, [g.args[0]]).locals) & set(backslice(b, [ins.args[0]]).locals) - set(range(1, b.argc + 1)))
         lookup = in_cycle and key_ok and filled_ok and same_map
+        if lookup:
+            # the walk up the ancestors starts at the path itself: an input path that is a file is a root as well (is_prefix_of is reflexive)
+            cyc = innermost_loop(b, g.bb)
+            starts_at_parent = []
+            for l in key.locals:
+                ds = b.defs().get(l, [])
+                if any(d[0] in cyc for d in ds) and any(d[0] not in cyc for d in ds):
+                    for d in ds:
+                        if d[0] in cyc:
+                            continue
+                        ops = d[3].args if d[2] == 'call' else rvalue_operands(d[3]['rv'])
+                        if backslice(b, ops).has_call(r'path::Path::parent$'):
+                            starts_at_parent.append(d)
+            ctx.check(not starts_at_parent, rule, P + '|lookup-starts-at-the-path', g.where(), 'the first key looked up is the path of the file itself, then its ancestors',
+                      'the first key looked up is the PARENT of the path: an input path that is a file (`--isolate f1 dir2`) is a root as well (Path::is_prefix_of is reflexive), its file is no longer '
+                      'assigned to it and is counted as a replica outside of every root')
     ctx.check((bool(pos) and pref) or lookup, rule, P + '|root-prefix', b.where(), 'root = a root that is a prefix of the path (%s)' % ('the first of the path and its ancestors that is in the table of the roots' if lookup else 'is_prefix_of'),
               'the root of a file is found neither by Path::is_prefix_of nor by looking up the path and its ancestors in a table of the roots')
     # the choice among several matching (nested) roots does not depend on their order: the most specific one, not the first one
